@@ -566,6 +566,9 @@ fn outcome_plans() -> Vec<(&'static str, Vec<Plan>, Vec<Fault>)> {
         ("die-kill", vec![Plan::new(Fate::Die { sig: 9, after_lines: 1, no_expectations: false }), Plan::new(Fate::Pass)], vec![]),
         ("die-term", vec![Plan::new(Fate::Pass), Plan::new(Fate::Die { sig: 15, after_lines: 0, no_expectations: true })], vec![]),
         ("detached-then-pass", vec![Plan::new(Fate::Detached), Plan::new(Fate::Pass)], vec![]),
+        ("detached-last", vec![Plan::new(Fate::Pass), Plan::new(Fate::WrongOutput), Plan::new(Fate::Detached)], vec![]),
+        ("only-detached", vec![Plan::new(Fate::Detached), Plan::new(Fate::Detached)], vec![]),
+        ("detached-between-failures", vec![Plan::new(Fate::WrongOutput), Plan::new(Fate::Detached), Plan::new(Fate::Code { code: 2, expected: None, exit_shell: false })], vec![]),
         ("spawn-failure", vec![Plan::new(Fate::Pass), Plan::new(Fate::Pass)], vec![Fault::Spawn { nth: 1, errno: 11 }]),
         ("spawn-failure-first", vec![Plan::new(Fate::Pass)], vec![Fault::Spawn { nth: 0, errno: 2 }]),
         ("wait-failure", vec![Plan::new(Fate::Pass), Plan::new(Fate::Pass)], vec![Fault::Wait { proc: 0, errno: 10 }]),
@@ -1014,8 +1017,12 @@ pub fn lane_directory(seed: u64) -> Vec<Scenario> {
                     tests,
                 ));
             }
-            // a document without any test case, and a file that is no document at all
+            // a document without any test case, and documents in sub-directories
             docs.push(doc("suite/prose-only.md", Format::Md, vec![]));
+            let deep = vec![g.test(&Plan::new(Fate::Pass), &mut sim.programs), g.test(&Plan::new(Fate::WrongOutput), &mut sim.programs)];
+            docs.push(doc("suite/sub/deeper/nested.md", Format::Md, deep));
+            let deep_t = vec![g.test(&Plan::new(Fate::Pass), &mut sim.programs)];
+            docs.push(doc("suite/sub/nested.cram", Format::Cram, deep_t));
             let mut cli = Cli::default();
             cli.as_directory = true;
             let mut sc = Scenario {
@@ -1080,6 +1087,60 @@ pub fn lane_create(seed: u64) -> Vec<Scenario> {
                 pretty: false,
                 check: vec!["C18".into()],
             });
+        }
+    }
+    out
+}
+
+/// C14: per-test timeouts in single-script mode (`--cram-compat` on a Markdown document) and
+/// front-matter limits under `--cram-compat`
+pub fn lane_script_limits(seed: u64) -> Vec<Scenario> {
+    let mut out = vec![];
+    let mut g = G::new(seed ^ 0x5c21);
+    for which in ["inline-timeout-slow", "inline-timeout-fast", "defaults-timeout-slow", "front-limit-slow", "front-limit-hang", "front-zero-long", "cli-zero-over-front"] {
+        for pos in 0..3usize {
+            let mut sim = base_sim(g.rng.next_u64());
+            let mut tests = vec![];
+            for k in 0..3 {
+                let plan = if k == pos {
+                    match which {
+                        "inline-timeout-slow" => Plan::new(Fate::Slow { ns: 20 * SEC }).cfg(TestCfg { timeout_ns: Some(SEC), ..Default::default() }),
+                        "inline-timeout-fast" => Plan::new(Fate::Slow { ns: 10 * MS }).cfg(TestCfg { timeout_ns: Some(5 * SEC), ..Default::default() }),
+                        "defaults-timeout-slow" => Plan::new(Fate::Slow { ns: 20 * SEC }),
+                        "front-limit-hang" => Plan::new(Fate::Hang),
+                        "front-zero-long" | "cli-zero-over-front" => Plan::new(Fate::Slow { ns: 5000 * SEC }),
+                        _ => Plan::new(Fate::Slow { ns: 30 * SEC }),
+                    }
+                } else {
+                    Plan::new(Fate::Slow { ns: 300 * MS })
+                };
+                tests.push(g.test(&plan, &mut sim.programs));
+            }
+            let mut d = doc("compat/limits.md", Format::Md, tests);
+            let mut cli = Cli::default();
+            cli.cram_compat = true;
+            match which {
+                "defaults-timeout-slow" => d.defaults.timeout_ns = Some(2 * SEC),
+                "front-limit-slow" | "front-limit-hang" => d.total_timeout_ns = Some(3500 * MS),
+                "front-zero-long" => d.total_timeout_ns = Some(0),
+                "cli-zero-over-front" => {
+                    d.total_timeout_ns = Some(2 * SEC);
+                    cli.timeout_seconds = Some(0);
+                }
+                _ => {}
+            }
+            let mut sc = Scenario {
+                lane: format!("script-limits/{}/pos{}", which, pos),
+                tier: Tier::Cli,
+                script_mode: false,
+                docs: vec![d],
+                cli,
+                sim,
+                pretty: false,
+                check: vec!["C14".into(), "C20".into(), "C05".into()],
+            };
+            fill_expectations(&mut sc, &mut g);
+            out.push(sc);
         }
     }
     out
